@@ -113,7 +113,6 @@ def _evaluate(case, r):
     big = 'big' in case
     exp = X.indep_read(raw)                      # the independent reader's view of what the server sent
     if case.get('expected') is not None:
-        e2 = json.loads(json.dumps(case['expected'], default=lambda b: {'h': b.hex()}))  # deep copy not needed; compare below
         want = X.canon(msgid_sub(case['expected'], raw))
         if X.canon(exp) != want:
             r.fail('harness self-check: independent reader disagrees with the generator', expected=want, actual=X.canon(exp))
@@ -176,9 +175,6 @@ def _evaluate(case, r):
     try: got = X.indep_read(res.data_xml)
     except Exception as ex:
         r.fail('NCElement.data_xml unreadable: %s' % ex, actual=type(ex).__name__); return
-    exp_cmp = exp
-    if prof == 'junos' and op == 'get_schema':
-        exp_cmp = junos_schema_fix(exp)               # fix_get_schema_reply is not applied to the XSLT input (it re-reads the raw text)
     coll = X.has_local_collision(exp)
     if prof == 'sros':
         if X.canon(got) != X.canon(exp): r.fail('SR OS pass-through altered the reply', expected=X.canon(exp), actual=X.canon(got))
@@ -208,14 +204,9 @@ def _evaluate(case, r):
     if not big:
         if prof == 'junos':
             r.mcalls.append(([1, exp], X.canon(got, drop_blank=True), 'junos_xslt vs NCElement document (modulo blank text)', lambda v: X.canon(v, drop_blank=True)))
-            if X.canon(got, drop_blank=True) != X.canon(X.canon(got), drop_blank=True): pass
         elif prof == 'alu':
             r.mcalls.append(([2, exp], X.canon(got), 'alu vs NCElement document', lambda v: X.canon(v)))
-        # the harness canonicaliser agrees with the model's erase_ns / drop_blank
-        r.mcalls.append(([7, [6, None]], None, None, None)) if False else None
 
-
-def junos_schema_fix(exp): return exp
 
 def msgid_sub(t, raw):
     m = re.search(r'message-id=["\'](urn:uuid:[0-9a-f-]+)["\']', raw)
@@ -279,8 +270,6 @@ def gen_reply(rng, g, op):
                 insert((esd, ex))
     pro = rng.choice(['', '', '<?xml version="1.0" encoding="UTF-8"?>', '<?xml version="1.0" encoding="UTF-8"?>\n', '<!--hello-->'])
     return pro + X.serialise(sd, rng) + rng.choice(['', '', '\n']), exp
-
-def fix_nested_scope(sd): return sd
 
 OPS = {'default': ['get', 'get_config', 'get_schema', 'dispatch'], 'junos': ['get', 'get_config', 'get_schema', 'rpc'],
        'alu': ['get', 'get_config', 'get_schema', 'dispatch'], 'sros': ['get', 'get_config', 'get_schema', 'dispatch']}
